@@ -167,6 +167,17 @@ C04_NewDocs == {SD("dict", NoVal, <<<<C04_KA, c>>>>) : c \in C04_New(2)}
 C04_Docs    == SetToSeq(C04_OldDocs) \o SetToSeq(C04_NewDocs)
 C04_Range   == << <<1, Cardinality(C04_OldDocs)>>, <<Cardinality(C04_OldDocs) + 1, Cardinality(C04_OldDocs) + Cardinality(C04_NewDocs)>> >>
 
+\* index-addressed lists: older lists of three distinct elements, newer mappings
+\* over the indices 0 1 2 with values 2 / value-less !del, and newer lists
+C04_V3 == Atom("i", "3")  C04_V4 == Atom("i", "4")
+C04_OldL == {SD("dict", NoVal, <<<<C04_KA, SD("list", NoVal, <<<<IKey(0), C04_L(C04_V1)>>, <<IKey(1), C04_L(C04_V3)>>, <<IKey(2), e>>>>)>>>>)
+             : e \in {C04_L(C04_V4), SD("dict", NoVal, <<<<C04_KA, C04_L(C04_V4)>>>>)} }
+C04_NewL == {SD("dict", NoVal, <<<<C04_KA, c>>>>) :
+                c \in TagAll(MapsOver(<<IKey(0), IKey(1), IKey(2)>>, {C04_L(C04_V2), C04_DelKeySD}), {"none", "merge", "del"})
+                       \cup TagAll(ListsOver(2, {C04_L(C04_V2)}), {"none", "merge"}) }
+C04_DocsL  == SetToSeq(C04_OldL) \o SetToSeq(C04_NewL)
+C04_RangeL == << <<1, Cardinality(C04_OldL)>>, <<Cardinality(C04_OldL) + 1, Cardinality(C04_OldL) + Cardinality(C04_NewL)>> >>
+
 \* 3-stage histories: a narrower older set, chain-shaped newer documents
 C04_OldS == {SD("dict", NoVal, <<<<C04_KA, c>>>>) : c \in C04_Old(1)}
 RECURSIVE C04_NewS(_)
